@@ -68,6 +68,11 @@ def _more_hand_made(P: Any) -> list[tuple[str, list[Any], list[list[Any]], list[
     # two loops that consist of tests only (a wait loop followed by a loop the loop detection opens and cannot close)
     sets.append(("test-only-loops", [inf("GENERIC")], [[
         o(0, "hm_first", []), o(1, "Branch", [V("$A"), 1, 1]), o(2, "Branch", [V("$B"), 1, 3]), o(3, "Jump", [2])]], [None]))
+    # jumps into the list of cases of a switch (no ExplorerScript syntax: must end in the exact fallback, never in a switch that lost cases)
+    sets.append(("jump-into-case-list", [inf("GENERIC")], [[
+        o(0, "hm_first", []), o(1, "Switch", [V("$S")]), o(2, "Case", [2, 6]), o(3, "Case", [3, 5]), o(4, "Jump", [1]), o(5, "hm_body", []), o(6, "Jump", [2])]], [None]))
+    sets.append(("jump-into-case-list-shared-branch", [inf("GENERIC")], [[
+        o(0, "Switch", [V("$S")]), o(1, "Case", [1, 5]), o(2, "Case", [2, 6]), o(3, "Case", [3, 5]), o(4, "Jump", [3]), o(5, "Jump", [3]), o(6, "Jump", [0])]], [None]))
     sets.append(("irreducible-loop-through-first-op", [inf("GENERIC")], [[
         o(0, "hm_top", []), o(1, "Branch", [V("$A"), 1, 4]), o(2, "hm_x", []), o(3, "Jump", [5]), o(4, "hm_y", []), o(5, "hm_z", []), o(6, "Branch", [V("$B"), 2, 4]),
         o(7, "Branch", [V("$C"), 3, 0]), o(8, "Jump", [2])]], [None]))
@@ -252,4 +257,53 @@ def _op_level(P: Any, thorough: bool) -> list[tuple[str, list[Any], list[list[An
                     ops.append(o(i, f"op{i}", []))
             shape = " ".join(k if t is None else f"{k}{t}" for k, t in prog)
             out.append((f"oplevel-{n}", [inf("GENERIC")], [ops], [None]))
+    return out
+
+
+def _switch_level(P: Any, thorough: bool) -> list[tuple[str, list[Any], list[list[Any]], list[Any]]]:
+    """Small routines around one Switch: [plain op]? Switch Case{1..3} then 1..2 ops of {plain, End, Jump -> t} (quick: three cases only with one op), every case and jump
+    target ranging over all ops behind the header (jump targets: over all ops from the switch on, the case list included).  In the thorough
+    tier additionally three ops behind the header for the header shape `Case a, Case b, Case a` (non-adjacent cases sharing a branch)."""
+    import itertools
+    o, inf, pa = P.op, P.info, P.param
+    out = []
+
+    def emit(prog: list[tuple[str, int | None]], tag: str) -> None:
+        for i, (k, t) in enumerate(prog):
+            if k == "J":
+                seen = set()
+                j = i
+                while prog[j][0] == "J":
+                    if j in seen:
+                        return
+                    seen.add(j)
+                    j = prog[j][1]  # type: ignore[assignment]
+        ops = []
+        for i, (k, t) in enumerate(prog):
+            if k == "E":
+                ops.append(o(i, "End", []))
+            elif k == "J":
+                ops.append(o(i, "Jump", [t]))
+            elif k == "S":
+                ops.append(o(i, "Switch", [pa("SsbOpParamConstant", "$S")]))
+            elif k == "C":
+                ops.append(o(i, "Case", [i, t]))
+            else:
+                ops.append(o(i, f"op{i}", []))
+        out.append((tag, [inf("GENERIC")], [ops], [None]))
+    for pre in (0, 1):
+        for ncase in (1, 2, 3):
+            for rest in range(1, (3 if thorough else 2) + 1):
+                if not thorough and rest == 2 and ncase == 3:
+                    continue
+                n = pre + 1 + ncase + rest
+                hdr = pre + 1 + ncase
+                rest_choices: list[tuple[str, int | None]] = [("P", None), ("E", None)] + [("J", t) for t in range(pre, n)]
+                for case_t in itertools.product(range(hdr, n), repeat=ncase):
+                    if rest == 3 and not (ncase == 3 and case_t[0] == case_t[2] != case_t[1]):
+                        continue
+                    for r in itertools.product(rest_choices, repeat=rest):
+                        if r[-1][0] not in "EJ":
+                            continue
+                        emit([("P", None)] * pre + [("S", None)] + [("C", t) for t in case_t] + list(r), f"switchlevel-{ncase}-{rest}")
     return out
